@@ -1,16 +1,956 @@
-(* Proofs about the two-endpoint model Fix/Net.v (C07). *)
+(* Proofs about the two-endpoint model Fix/Net.v (C07): the single-break family, for all n and k,
+   by symbolic execution of the session model Fix/Session.v, and the refutation witnesses. *)
 From Coq Require Import ZArith NArith List Bool Lia.
-From AF Require Import Base.Sx Py.Str Fix.Session Fix.Net.
+From AF Require Import Base.Sx Py.Str Fix.Session Fix.Net Lemmas.StrB.
 From AFGen Require Import GenEnums GenGroups.
 Import ListNotations.
 Open Scope Z_scope.
 
+(* ------------------------------------------------------------------ int(str(n)) *)
+
+Lemma lstrip_digits_gen : forall ws s, (forall c, is_digit c = true -> ws c = false) ->
+  Forall (fun c => is_digit c = true) s -> lstrip ws s = s.
+Proof. 
+  intros ws s Hws H. destruct s as [|c s]; [reflexivity|]. inversion H; subst. cbn.
+  rewrite (Hws c) by assumption. reflexivity.
+Qed.
+
+Lemma py_int_gen_digits : forall ws s, (forall c, is_digit c = true -> ws c = false) ->
+  s <> [] -> Forall (fun c => is_digit c = true) s -> (length s <= 4300)%nat ->
+  py_int_gen ws s = Some (Z.of_N (dval s 0)).
+Proof. 
+  intros ws s Hws Hne Hd Hl. unfold py_int_gen, strip.
+  rewrite (lstrip_digits_gen ws s Hws Hd).
+  rewrite (lstrip_digits_gen ws (rev s) Hws) by (apply Forall_rev; assumption).
+  rewrite rev_involutive.
+  destruct s as [|d r]; [contradiction|]. inversion Hd; subst.
+  rewrite sign_match_digit by assumption.
+  rewrite filter_digits by assumption.
+  assert (E : (4300 <? N.of_nat (length (d :: r)))%N = false) by lia. rewrite E, H1.
+  rewrite digits_us_digits by assumption. reflexivity.
+Qed.
+
+Lemma ws_str_digit : forall c, is_digit c = true -> ws_str c = false.
+Proof.  intros c H. unfold is_digit, ws_str in *. lia. Qed.
+Lemma ws_bytes_digit : forall c, is_digit c = true -> ws_bytes c = false.
+Proof.  intros c H. unfold is_digit, ws_bytes in *. lia. Qed.
+
+Lemma n_to_dec_len : forall n, (n < 10 ^ 4300)%N -> (length (n_to_dec n) <= 4300)%nat.
+Proof. 
+  intros n Hn. destruct (n_to_dec_spec n) as [Hne [Hd [Hv Hge]]].
+  destruct Hge as [Hge|Hge]; [|lia].
+  destruct (Nat.le_gt_cases (length (n_to_dec n)) 4300) as [L|L]; [assumption|exfalso].
+  assert (M : (10 ^ 4300 <= 10 ^ N.of_nat (length (n_to_dec n) - 1))%N) by (apply N.pow_le_mono_r; [discriminate | lia]).
+  revert Hn Hge M. generalize (10 ^ 4300)%N (10 ^ N.of_nat (length (n_to_dec n) - 1))%N. intros; lia.
+Qed.
+
+Lemma i64_small : forall p, Zpos p <= I64MAX -> (Npos p < 10 ^ 4300)%N.
+Proof. 
+  intros p H.
+  assert (A : (Npos p < 10 ^ 63)%N) by (unfold I64MAX in H; lia).
+  assert (C : (10 ^ 63 <= 10 ^ 4300)%N) by (apply N.pow_le_mono_r; [discriminate | apply N.leb_le; reflexivity]).
+  eapply N.lt_le_trans; eassumption.
+Qed.
+
+Lemma py_int_gen_dec : forall ws z, (forall c, is_digit c = true -> ws c = false) ->
+  0 <= z <= I64MAX -> py_int_gen ws (z_to_dec z) = Some z.
+Proof. 
+  intros ws z Hws [H0 H1]. destruct z as [|p|p]; [| |lia].
+  - unfold z_to_dec. rewrite py_int_gen_digits; try assumption; try reflexivity; try discriminate.
+    + repeat constructor.
+    + cbn. apply Nat.leb_le. reflexivity.
+  - cbn [z_to_dec]. destruct (n_to_dec_spec (Npos p)) as [Hne [Hd [Hv _]]].
+    rewrite py_int_gen_digits; try assumption.
+    + rewrite Hv. reflexivity.
+    + apply n_to_dec_len. apply i64_small. assumption.
+Qed.
+
+Lemma py_int_dec : forall z, 0 <= z <= I64MAX -> py_int (z_to_dec z) = Some z.
+Proof.  intros. apply py_int_gen_dec; [exact ws_str_digit|assumption]. Qed.
+Lemma py_int_bytes_dec : forall z, 0 <= z <= I64MAX -> py_int_bytes (z_to_dec z) = Some z.
+Proof.  intros. apply py_int_gen_dec; [exact ws_bytes_digit|assumption]. Qed.
+
+(* ------------------------------------------------------------------ runs of consecutive messages *)
+
+Fixpoint gen {A} (f : Z -> Z -> A) (s i : Z) (k : nat) : list A :=
+  match k with
+  | O => []
+  | S k' => f s i :: gen f (s + 1) (i + 1) k'
+  end.
+
+Lemma gen_S : forall A (f : Z -> Z -> A) k s i, gen f s i (S k) = f s i :: gen f (s + 1) (i + 1) k.
+Proof. reflexivity. Qed.
+
+Lemma gen_snoc : forall A (f : Z -> Z -> A) k s i,
+  gen f s i (S k) = gen f s i k ++ [f (s + Z.of_nat k) (i + Z.of_nat k)].
+Proof.
+  induction k as [|k IH]; intros s i.
+  - cbn. replace (s + 0) with s by lia. replace (i + 0) with i by lia. reflexivity.
+  - change (gen f s i (S (S k))) with (f s i :: gen f (s + 1) (i + 1) (S k)).
+    rewrite IH. cbn [gen app].
+    replace (s + 1 + Z.of_nat k) with (s + Z.of_nat (S k)) by lia.
+    replace (i + 1 + Z.of_nat k) with (i + Z.of_nat (S k)) by lia. reflexivity.
+Qed.
+
+Lemma gen_app : forall A (f : Z -> Z -> A) a b s i,
+  gen f s i (a + b) = gen f s i a ++ gen f (s + Z.of_nat a) (i + Z.of_nat a) b.
+Proof.
+  induction a as [|a IH]; intros b s i.
+  - cbn. replace (s + 0) with s by lia. replace (i + 0) with i by lia. reflexivity.
+  - cbn [Nat.add gen app]. rewrite IH.
+    replace (s + 1 + Z.of_nat a) with (s + Z.of_nat (S a)) by lia.
+    replace (i + 1 + Z.of_nat a) with (i + Z.of_nat (S a)) by lia. reflexivity.
+Qed.
+
+Lemma gen_map : forall A B (g : A -> B) (f : Z -> Z -> A) k s i,
+  map g (gen f s i k) = gen (fun s i => g (f s i)) s i k.
+Proof. induction k as [|k IH]; intros; [reflexivity|]. cbn. rewrite IH. reflexivity. Qed.
+
+Lemma gen_Forall : forall A (P : A -> Prop) (f : Z -> Z -> A) k s i,
+  (forall j, (j < k)%nat -> P (f (s + Z.of_nat j) (i + Z.of_nat j))) -> Forall P (gen f s i k).
+Proof.
+  induction k as [|k IH]; intros s i H; [constructor|]. cbn. constructor.
+  - specialize (H 0%nat). cbn in H. replace (s + 0) with s in H by lia. replace (i + 0) with i in H by lia. apply H. lia.
+  - apply IH. intros j Hj. specialize (H (S j)).
+    replace (s + 1 + Z.of_nat j) with (s + Z.of_nat (S j)) by lia.
+    replace (i + 1 + Z.of_nat j) with (i + Z.of_nat (S j)) by lia. apply H. lia.
+Qed.
+
+
+(* ------------------------------------------------------------------ symbolic execution *)
+
+Lemma in_i64_ok : forall z, 0 <= z <= I64MAX -> in_i64 z = true.
+Proof. intros. unfold in_i64, I64MIN, I64MAX in *. lia. Qed.
+
+(* decide one stuck integer comparison of the goal by lia *)
+Ltac zb1 :=
+  match goal with
+  | |- context [?a <? ?b] =>
+      first [ replace (a <? b) with true by (symmetry; apply Z.ltb_lt; lia)
+            | replace (a <? b) with false by (symmetry; apply Z.ltb_ge; lia) ]
+  | |- context [?a <=? ?b] =>
+      first [ replace (a <=? b) with true by (symmetry; apply Z.leb_le; lia)
+            | replace (a <=? b) with false by (symmetry; apply Z.leb_gt; lia) ]
+  | |- context [?a =? ?b] =>
+      first [ replace (a =? b) with true by (symmetry; apply Z.eqb_eq; lia)
+            | replace (a =? b) with false by (symmetry; apply Z.eqb_neq; lia) ]
+  end.
+
+(* strict forms of the two monad combinators: one copy of the pending computation, forced by a match *)
+Definition prepend {A} (e1 : list event) (r2 : res A) : res A :=
+  match r2 with mkR v w e => mkR v w (e1 ++ e) end.
+
+Lemma try_unfold : forall A (c : M A) w,
+  try_ c w = match c w with
+             | mkR (inl a) w1 e => mkR (inl (Some a)) w1 e
+             | mkR (inr _) w1 e => mkR (inl None) w1 e
+             end.
+Proof. intros. unfold try_. destruct (c w) as [[a|x] w1 e]; reflexivity. Qed.
+
+Lemma bind_unfold : forall A B (c : M A) (k : A -> M B) w,
+  bind c k w = match c w with
+               | mkR (inl a) w1 e1 => prepend e1 (k a w1)
+               | mkR (inr x) w1 e1 => mkR (inr x) w1 e1
+               end.
+Proof.
+  intros. unfold bind, prepend. destruct (c w) as [[a|x] w1 e]; [|reflexivity].
+  cbn. destruct (k a w1); reflexivity.
+Qed.
+
+Lemma prepend_prepend : forall A e1 e2 (r : res A), prepend e1 (prepend e2 r) = prepend (e1 ++ e2) r.
+Proof. intros. destruct r. cbn. rewrite app_assoc. reflexivity. Qed.
+
+(* One round of evaluation of a library call applied to a world:
+   - the applied binds / trys in evaluation position are put in strict form,
+   - everything except them, integer arithmetic and the operations on symbolic data is computed (cbv:
+     no heuristics; continuations stay folded behind `bind`, so nothing is computed ahead of time),
+   - the conditions that block the computation are decided: int(str(n)), 64-bit range checks, integer
+     comparisons (lia), plus whatever facts the caller supplies (tac). *)
+(* int() of a literal *)
+Ltac py_lit :=
+  match goal with
+  | |- context [py_int ?s] =>
+      let v := eval vm_compute in (py_int s) in
+      match v with Some _ => idtac | None => idtac end;
+      change (py_int s) with v
+  end.
+
+Ltac ev_step tac :=
+  rewrite ?bind_unfold, ?try_unfold;
+  cbv beta iota zeta delta -[bind try_ Z.add Z.sub Z.mul Z.opp Z.ltb Z.leb Z.eqb Z.of_nat
+                             py_int py_int_bytes z_to_dec in_i64 has_key existsb filter app sort_rows replay_loop gen
+                             I64MAX I64MIN];
+  cbn [filter app replay_loop];
+  tac;
+  try rewrite !py_int_dec by (unfold I64MAX; lia); try rewrite !py_int_bytes_dec by (unfold I64MAX; lia);
+  try rewrite !in_i64_ok by (unfold I64MAX; lia); repeat py_lit; repeat zb1.
+Ltac ev_with tac :=
+  match goal with
+  | |- _ = ?r =>
+      let R := fresh "R" in let ER := fresh "ER" in
+      unfold I64MAX, I64MIN in *; remember r as R eqn:ER; repeat (progress (ev_step tac)); subst R
+  end.
+Ltac ev := ev_with idtac.
+
+(* close `computed result = stated result`: equal up to list re-association and linear arithmetic in the numbers *)
+Ltac fin :=
+  first [ reflexivity
+        | rewrite <- ?app_assoc; cbn [app];
+          repeat (first [ reflexivity | lia | f_equal ]) ].
+
+(* debugging aid: print the computation that blocks *)
+Ltac show_stuck :=
+  match goal with
+  | |- context [match ?t with mkR _ _ _ => _ end] =>
+      lazymatch t with
+      | match _ with mkR _ _ _ => _ end => fail
+      | _ => idtac "STUCK:" t
+      end
+  end.
+
+(* ------------------------------------------------------------------ the frames of the family *)
+
+Definition wapp (c : cfg) (seq id : Z) : msg := mkMsg MT_D (wire_tags c seq (app_msg id)).
+Definition wlogon (c : cfg) (seq : Z) : msg := mkMsg MT_LOGON (wire_tags c seq logon_msg).
+Definition wrr (c : cfg) (seq b : Z) : msg :=
+  mkMsg MT_RESENDREQUEST (wire_tags c seq (mkMsg MT_RESENDREQUEST [(T7, z_to_dec b); (T16, S_0)])).
+(* the retransmission of wapp: same number, PossDupFlag, OrigSendingTime *)
+Definition wpd (c : cfg) (seq id : Z) : msg :=
+  mkMsg MT_D (wire_tags c seq (app_msg id) ++ [(T43, S_Y); (T122, c_time c)]).
+Definition wgf (c : cfg) (b e : Z) : msg :=
+  mkMsg MT_SEQUENCERESET (wire_tags c b (gap_fill b (z_to_dec e))).
+
+(* worlds of the family: ACTIVE etc. with symbolic counters *)
+Definition W (s r ni no mr lt : Z) (wrt : bool) (so si : Z) (rows : list (Z * msg)) (ins : list Z) : world :=
+  mkW s r ni no mr None true lt wrt (mkJ so si rows ins).
+
+Definition keys_lt (b : Z) (rows : list (Z * msg)) : Prop := Forall (fun r => fst r < b) rows.
+Definition all_lt (b : Z) (l : list Z) : Prop := Forall (fun x => x < b) l.
+
+Lemma has_key_lt : forall b rows, keys_lt b rows -> has_key b rows = false.
+Proof.
+  unfold has_key. induction rows as [|r rows IH]; intros H; [reflexivity|].
+  inversion H; subst. cbn. rewrite IH by assumption.
+  replace (fst r =? b) with false by (symmetry; apply Z.eqb_neq; lia). fin.
+Qed.
+
+Lemma existsb_lt : forall b l, all_lt b l -> existsb (Z.eqb b) l = false.
+Proof.
+  induction l as [|x l IH]; intros H; [reflexivity|].
+  inversion H; subst. cbn. rewrite IH by assumption.
+  replace (b =? x) with false by (symmetry; apply Z.eqb_neq; lia). fin.
+Qed.
+
+Lemma filter_true : forall A (f : A -> bool) l, Forall (fun x => f x = true) l -> filter f l = l.
+Proof. induction l as [|x l IH]; intros H; [reflexivity|]. inversion H; subst. cbn. rewrite H2, IH by assumption. reflexivity. Qed.
+Lemma filter_false : forall A (f : A -> bool) l, Forall (fun x => f x = false) l -> filter f l = [].
+Proof. induction l as [|x l IH]; intros H; [reflexivity|]. inversion H; subst. cbn. rewrite H2, IH by assumption. reflexivity. Qed.
+
+(* --- A: application send while ACTIVE *)
+Lemma send_app_step : forall ni no lt si rows ins id,
+  keys_lt no rows -> 0 < no <= I64MAX ->
+  send_msg cfgA (app_msg id) (W 17 1 ni no 0 lt true (no - 1) si rows ins)
+  = mkR (inl tt) (W 17 1 ni (no + 1) 0 lt true no si (rows ++ [(no, wapp cfgA no id)]) ins)
+        [Wire (wapp cfgA no id)].
+Proof.
+  intros * K B. unfold W. pose proof (has_key_lt _ _ K) as HK.
+  timeout 60 (ev_with ltac:(rewrite ?HK)). fin.
+Qed.
+
+(* --- B: application message with the expected number while ACTIVE *)
+Lemma recv_app_active : forall ni no lt so si rows ins id,
+  all_lt ni ins -> 0 < ni < I64MAX -> si = ni - 1 ->
+  process_message cfgB (recv_of cfgB (wapp cfgA ni id)) NOW0 (W 17 2 ni no 0 lt true so si rows ins)
+  = mkR (inl tt) (W 17 2 (ni + 1) no 0 NOW0 true so ni rows (ins ++ [ni]))
+        [App (recv_of cfgB (wapp cfgA ni id))].
+Proof.
+  intros * K B ->. unfold W, process_message, validate_integrity.
+  pose proof (existsb_lt _ _ K) as HK. timeout 60 (ev_with ltac:(rewrite ?HK)). fin.
+Qed.
+
+(* --- either side: the transport is lost while ACTIVE *)
+Lemma disconnect_active : forall c r ni no mr lt so si rows ins,
+  disconnect c ST_DISC_BROKEN None (W 17 r ni no mr lt true so si rows ins)
+  = mkR (inl tt) (W 3 r ni no 0 0 false so si rows ins) [State 3; OnDisconnect].
+Proof. intros. unfold W. ev. reflexivity. Qed.
+
+(* --- A: Logon on the new transport *)
+Lemma send_logon_step : forall ni no si rows ins,
+  keys_lt no rows -> 0 < no <= I64MAX ->
+  send_msg cfgA logon_msg (W 6 1 ni no 0 0 true (no - 1) si rows ins)
+  = mkR (inl tt) (W 7 1 ni (no + 1) 0 0 true no si (rows ++ [(no, wlogon cfgA no)]) ins)
+        [State 7; Wire (wlogon cfgA no)].
+Proof.
+  intros * K B. unfold W. pose proof (has_key_lt _ _ K) as HK.
+  timeout 60 (ev_with ltac:(rewrite ?HK)). fin.
+Qed.
+
+Lemma filter_ins_lt : forall b l, all_lt b l -> forall c, b <= c -> filter (fun k : Z => k <? c) l = l.
+Proof.
+  intros b l H c Hc. apply filter_true. eapply Forall_impl; [|exact H]. cbn. intros a Ha. apply Z.ltb_lt. lia.
+Qed.
+Lemma filter_rows_lt : forall b rows, keys_lt b rows -> forall c, b <= c ->
+  filter (fun r : Z * msg => (let (x, _) := r in x) <? c) rows = rows.
+Proof.
+  intros b l H c Hc. apply filter_true. eapply Forall_impl; [|exact H]. cbn. intros [a m] Ha. apply Z.ltb_lt. cbn in Ha. lia.
+Qed.
+
+(* --- B: the initiator's Logon on the new transport, numbered as expected (nothing was lost) *)
+Lemma recv_logon_exact : forall ni no so si rows ins,
+  all_lt ni ins -> keys_lt no rows -> 0 < ni < I64MAX -> 0 < no <= I64MAX -> so = no - 1 -> si = ni - 1 ->
+  process_message cfgB (recv_of cfgB (wlogon cfgA ni)) NOW0
+                  (W 6 2 ni no 0 0 true so si rows ins)
+  = mkR (inl tt) (W 17 2 (ni + 1) (no + 1) 0 NOW0 true no ni (rows ++ [(no, wlogon cfgB no)]) (ins ++ [ni]))
+        [State 8; Wire (wlogon cfgB no); State 17; OnLogon true].
+Proof.
+  intros * K1 K2 B1 B2 -> ->. unfold W, process_message, validate_integrity.
+  pose proof (existsb_lt _ _ K1) as HK1. pose proof (has_key_lt _ _ K2) as HK2.
+  timeout 60 (ev_with ltac:(rewrite ?HK1, ?HK2)). fin.
+Qed.
+
+(* --- B: the initiator's Logon is numbered above the expected number: Logon reply, one ResendRequest, wait *)
+Lemma recv_logon_high : forall ni no so si rows ins s,
+  keys_lt no rows -> 0 < ni < s -> s <= I64MAX -> 0 < no < I64MAX -> so = no - 1 ->
+  process_message cfgB (recv_of cfgB (wlogon cfgA s)) NOW0
+                  (W 6 2 ni no 0 0 true so si rows ins)
+  = mkR (inl tt) (W 12 2 ni (no + 2) s 0 true (no + 1) si
+                    (rows ++ [(no, wlogon cfgB no); (no + 1, wrr cfgB (no + 1) ni)]) ins)
+        [State 8; Wire (wlogon cfgB no); State 11; OnLogon false; Wire (wrr cfgB (no + 1) ni); State 12].
+Proof.
+  intros * K2 B1 B2 B3 ->. unfold W, process_message, validate_integrity.
+  assert (K3 : forall x, has_key (no + 1) (rows ++ [(no, x)]) = false).
+  { intros x. apply has_key_lt. apply Forall_app. split; [eapply Forall_impl; [|exact K2]; cbn; intros; lia|].
+    repeat constructor. cbn. lia. }
+  pose proof (has_key_lt _ _ K2) as HK2.
+  timeout 60 (ev_with ltac:(rewrite ?HK2, ?K3)). fin.
+Qed.
+
+(* --- A: the acceptor's Logon reply, numbered as expected *)
+Lemma recv_logon_reply : forall ni no so si rows ins,
+  all_lt ni ins -> 0 < ni < I64MAX -> si = ni - 1 ->
+  process_message cfgA (recv_of cfgA (wlogon cfgB ni)) NOW0 (W 7 1 ni no 0 0 true so si rows ins)
+  = mkR (inl tt) (W 17 1 (ni + 1) no 0 NOW0 true so ni rows (ins ++ [ni])) [State 17; OnLogon true].
+Proof.
+  intros * K1 B1 ->. unfold W, process_message, validate_integrity.
+  pose proof (existsb_lt _ _ K1) as HK1. timeout 60 (ev_with ltac:(rewrite ?HK1)). fin.
+Qed.
+
+(* --- B, waiting for the resend: a retransmitted application message with the expected number below the watermark *)
+Lemma recv_pd_awaiting : forall ni no mr lt so si rows ins id,
+  all_lt ni ins -> 0 < ni < mr -> mr <= I64MAX -> si = ni - 1 ->
+  process_message cfgB (recv_of cfgB (wpd cfgA ni id)) NOW0 (W 12 2 ni no mr lt true so si rows ins)
+  = mkR (inl tt) (W 12 2 (ni + 1) no mr NOW0 true so ni rows (ins ++ [ni]))
+        [App (recv_of cfgB (wpd cfgA ni id))].
+Proof.
+  intros * K1 B1 B2 ->. unfold W, process_message, validate_integrity.
+  pose proof (existsb_lt _ _ K1) as HK1. timeout 60 (ev_with ltac:(rewrite ?HK1)). fin.
+Qed.
+
+(* --- B, waiting for the resend: the gap fill that reaches the watermark returns it to ACTIVE *)
+Lemma recv_gf_awaiting : forall ni no so si rows ins,
+  all_lt ni ins -> keys_lt no rows -> 0 < ni < I64MAX -> 0 < no <= I64MAX -> so = no - 1 -> si = ni - 1 ->
+  process_message cfgB (recv_of cfgB (wgf cfgA ni (ni + 1))) NOW0 (W 12 2 ni no ni NOW0 true so si rows ins)
+  = mkR (inl tt) (W 17 2 (ni + 1) no 0 NOW0 true so ni rows (ins ++ [ni])) [State 17].
+Proof.
+  intros * K1 K2 B1 B2 -> ->. unfold W, process_message, validate_integrity.
+  pose proof (existsb_lt _ _ K1) as HK1.
+  timeout 100 (ev_with ltac:(rewrite ?(filter_ins_lt _ _ K1) by lia; rewrite ?(filter_rows_lt _ _ K2) by lia; rewrite ?HK1)).
+  fin.
+Qed.
+
+Definition rows_app (s i : Z) (k : nat) : list (Z * msg) := gen (fun s i => (s, wapp cfgA s i)) s i k.
+Definition rows_pd (s i : Z) (k : nat) : list (Z * msg) := gen (fun s i => (s, wpd cfgA s i)) s i k.
+Definition frames_app (s i : Z) (k : nat) : list msg := gen (fun s i => wapp cfgA s i) s i k.
+Definition frames_pd (s i : Z) (k : nat) : list msg := gen (fun s i => wpd cfgA s i) s i k.
+Definition texts (i : Z) (k : nat) : list str := gen (fun _ i => payload i) i i k.
+Definition nums (s : Z) (k : nat) : list Z := gen (fun s _ => s) s s k.
+
+Lemma keys_lt_app : forall b l1 l2, keys_lt b l1 -> keys_lt b l2 -> keys_lt b (l1 ++ l2).
+Proof. intros. apply Forall_app. split; assumption. Qed.
+Lemma keys_lt_weaken : forall b c l, keys_lt b l -> b <= c -> keys_lt c l.
+Proof. intros b c l H Hc. eapply Forall_impl; [|exact H]. cbn. intros. lia. Qed.
+Lemma all_lt_weaken : forall b c l, all_lt b l -> b <= c -> all_lt c l.
+Proof. intros b c l H Hc. eapply Forall_impl; [|exact H]. cbn. intros. lia. Qed.
+Lemma keys_lt_gen : forall (g : Z -> Z -> msg) k s i b, s + Z.of_nat k <= b -> keys_lt b (gen (fun s i => (s, g s i)) s i k).
+Proof. intros. apply gen_Forall. intros j Hj. cbn. lia. Qed.
+Lemma all_lt_nums : forall k s b, s + Z.of_nat k <= b -> all_lt b (nums s k).
+Proof. intros. apply gen_Forall. intros j Hj. cbn. lia. Qed.
+
+Lemma prepend_nil : forall A (r : res A), prepend [] r = r.
+Proof. intros. destruct r. reflexivity. Qed.
+
+(* --- A, servicing a ResendRequest: the loop over journaled application messages *)
+Lemma replay_apps : forall k s i b gfe ni lt si pre ins rest,
+  keys_lt s pre -> gfe <= s -> 0 < s -> s + Z.of_nat k <= I64MAX ->
+  replay_loop cfgA (rows_app s i k ++ rest) s gfe (W 10 1 ni b 0 lt true (s - 1) si pre ins)
+  = prepend (map Wire (frames_pd s i k))
+      (replay_loop cfgA rest (s + Z.of_nat k) gfe
+         (W 10 1 ni b 0 lt true (s + Z.of_nat k - 1) si (pre ++ rows_pd s i k) ins)).
+Proof.
+  induction k as [|k IH]; intros * K G B1 B2.
+  - cbn. rewrite prepend_nil, app_nil_r. replace (s + 0) with s by lia. reflexivity.
+  - unfold rows_app, rows_pd, frames_pd. cbn [gen app map].
+    fold (rows_app (s + 1) (i + 1) k). fold (rows_pd (s + 1) (i + 1) k). fold (frames_pd (s + 1) (i + 1) k).
+    remember (rows_app (s + 1) (i + 1) k ++ rest) as tl eqn:Etl.
+    pose proof (has_key_lt _ _ K) as HK. unfold W.
+    timeout 100 (ev_with ltac:(rewrite ?HK)).
+    subst tl.
+    assert (P1 : keys_lt (s + 1) (pre ++ [(s, wpd cfgA s i)])).
+    { apply keys_lt_app; [eapply keys_lt_weaken; [exact K|lia]|]. repeat constructor. cbn. lia. }
+    specialize (IH (s + 1) (i + 1) b gfe ni lt si _ ins rest P1 ltac:(lia) ltac:(lia) ltac:(lia)).
+    replace (s + 1 - 1) with s in IH by lia.
+    replace (s + 1 + Z.of_nat k) with (s + Z.of_nat (S k)) in IH by lia.
+    rewrite <- app_assoc in IH. cbn [app] in IH.
+    lazymatch type of IH with
+    | _ = ?rhs =>
+        match goal with
+        | |- context [replay_loop ?c ?l ?a ?g ?w] =>
+            replace (replay_loop c l a g w) with rhs by (symmetry; exact IH)
+        end
+    end.
+    destruct (replay_loop cfgA rest (s + Z.of_nat (S k)) gfe _) as [v w e]. reflexivity.
+Qed.
+
+(* --- lists of journal rows *)
+
+Fixpoint incr (l : list (Z * msg)) : Prop :=
+  match l with
+  | [] => True
+  | r :: l' => match l' with [] => True | r' :: _ => fst r <= fst r' end /\ incr l'
+  end.
+
+Lemma sort_rows_incr : forall l, incr l -> sort_rows l = l.
+Proof.
+  induction l as [|r l IH]; intros H; [reflexivity|].
+  cbn [sort_rows fold_right]. fold (sort_rows l). destruct H as [H1 H2]. rewrite IH by assumption.
+  destruct l as [|r' l']; [reflexivity|]. cbn [insert_row].
+  replace (fst r <=? fst r') with true by (symmetry; apply Z.leb_le; lia). reflexivity.
+Qed.
+
+Lemma incr_gen_snoc : forall (g : Z -> Z -> msg) k s i L x,
+  s + Z.of_nat k <= L -> incr (gen (fun s i => (s, g s i)) s i k ++ [(L, x)]).
+Proof.
+  induction k as [|k IH]; intros s i L x H; [cbn; auto|].
+  cbn [gen app]. cbn [incr]. split.
+  - destruct k; cbn; lia.
+  - apply IH. lia.
+Qed.
+
+Lemma filter_app : forall A (f : A -> bool) l1 l2, filter f (l1 ++ l2) = filter f l1 ++ filter f l2.
+Proof. induction l1 as [|x l1 IH]; intros; [reflexivity|]. cbn. destruct (f x); cbn; rewrite IH; reflexivity. Qed.
+
+(* recover_messages(OUTBOUND, b, maxsize) on  pre ++ (k rows from b) ++ [row L] *)
+Lemma recover_range : forall (g : Z -> Z -> msg) pre b i k L x M,
+  keys_lt b pre -> b + Z.of_nat k <= L -> L <= M ->
+  sort_rows (filter (fun r : Z * msg => (b <=? fst r) && (fst r <=? M))
+                    (pre ++ gen (fun s i => (s, g s i)) b i k ++ [(L, x)]))
+  = gen (fun s i => (s, g s i)) b i k ++ [(L, x)].
+Proof.
+  intros * K H1 H2. rewrite !filter_app.
+  rewrite (filter_false _ _ pre).
+  2:{ eapply Forall_impl; [|exact K]. cbn. intros [a m] Ha. cbn in *.
+      replace (b <=? a) with false by (symmetry; apply Z.leb_gt; lia). reflexivity. }
+  rewrite (filter_true _ _ (gen _ b i k)).
+  2:{ apply gen_Forall. intros j Hj. cbn.
+      replace (b <=? b + Z.of_nat j) with true by (symmetry; apply Z.leb_le; lia).
+      replace (b + Z.of_nat j <=? M) with true by (symmetry; apply Z.leb_le; lia). reflexivity. }
+  cbn [filter fst app].
+  replace (b <=? L) with true by (symmetry; apply Z.leb_le; lia).
+  replace (L <=? M) with true by (symmetry; apply Z.leb_le; lia). cbn [andb].
+  apply sort_rows_incr. apply incr_gen_snoc. assumption.
+Qed.
+
+(* set_seq_num(next_num_out = b): rows at or above b go *)
+Lemma truncate_at : forall pre post b,
+  keys_lt b pre -> Forall (fun r : Z * msg => b <= fst r) post ->
+  filter (fun r : Z * msg => fst r <? b) (pre ++ post) = pre.
+Proof.
+  intros * K P. rewrite filter_app, (filter_true _ _ pre), (filter_false _ _ post), app_nil_r; [reflexivity| |].
+  - eapply Forall_impl; [|exact P]. cbn. intros [a m] Ha. apply Z.ltb_ge. assumption.
+  - eapply Forall_impl; [|exact K]. cbn. intros [a m] Ha. apply Z.ltb_lt. assumption.
+Qed.
+
+Lemma keep_all : forall l c, keys_lt c l -> filter (fun r : Z * msg => fst r <? c) l = l.
+Proof.
+  intros l c K. apply filter_true. eapply Forall_impl; [|exact K]. cbn. intros [a m] Ha. apply Z.ltb_lt. assumption.
+Qed.
+
+Lemma ge_gen : forall (g : Z -> Z -> msg) k s i b, b <= s -> Forall (fun r : Z * msg => b <= fst r) (gen (fun s i => (s, g s i)) s i k).
+Proof. intros. apply gen_Forall. intros j Hj. cbn. lia. Qed.
+
+(* --- A, ACTIVE: the ResendRequest(b, 0) numbered as expected, over k journaled application messages
+       b .. L-1 and the Logon L sent on the new transport *)
+Lemma recv_resend_request : forall ni lt si pre ins b i k L,
+  all_lt ni ins -> keys_lt b pre -> 0 < ni < I64MAX -> 0 < b -> L = b + Z.of_nat k -> L < I64MAX ->
+  process_message cfgA (recv_of cfgA (wrr cfgB ni b)) NOW0
+    (W 17 1 ni (L + 1) 0 lt true L si (pre ++ rows_app b i k ++ [(L, wlogon cfgA L)]) ins)
+  = mkR (inl tt)
+        (W 17 1 (ni + 1) (L + 1) 0 NOW0 true L ni (pre ++ rows_pd b i k ++ [(L, wgf cfgA L (L + 1))]) (ins ++ [ni]))
+        ([State 10] ++ map Wire (frames_pd b i k) ++ [Wire (wgf cfgA L (L + 1)); State 17]).
+Proof.
+  intros * K1 K2 B1 B2 EL B3. unfold W, process_message, validate_integrity.
+  pose proof (existsb_lt _ _ K1) as HK1.
+  timeout 100 (ev_with ltac:(rewrite ?HK1)).
+  match goal with |- context [sort_rows (filter ?f ?l)] =>
+    replace (sort_rows (filter f l)) with (rows_app b i k ++ [(L, wlogon cfgA L)])
+      by (symmetry; apply recover_range; [exact K2 | lia | lia]) end.
+  match goal with |- context [filter ?f (pre ++ ?post)] =>
+    replace (filter f (pre ++ post)) with pre end.
+  2:{ symmetry. apply truncate_at. exact K2. apply Forall_app. split. apply ge_gen. lia. repeat constructor. cbn. lia. }
+  rewrite (filter_ins_lt _ _ K1) by lia.
+  match goal with |- context [replay_loop ?c ?l ?a ?g ?w] =>
+    replace (replay_loop c l a g w)
+      with (prepend (map Wire (frames_pd b i k))
+              (replay_loop cfgA [(L, wlogon cfgA L)] (b + Z.of_nat k) b
+                 (W 10 1 ni b 0 lt true (b + Z.of_nat k - 1) (ni - 1) (pre ++ rows_pd b i k) ins)))
+      by (symmetry; apply replay_apps; [exact K2 | lia | lia | unfold I64MAX; lia]) end.
+  unfold W.
+  timeout 100 (ev_with ltac:(rewrite ?HK1)).
+  match goal with |- context [has_key ?x (pre ++ ?l)] =>
+    replace (has_key x (pre ++ l)) with false
+      by (symmetry; apply has_key_lt; apply keys_lt_app; [eapply keys_lt_weaken; [exact K2|lia]|apply keys_lt_gen; lia]) end.
+  timeout 100 (ev_with ltac:(rewrite ?(filter_ins_lt _ _ K1) by lia; rewrite ?HK1)).
+  match goal with |- context [filter ?f ((pre ++ ?l) ++ ?m)] =>
+    replace (filter f ((pre ++ l) ++ m)) with ((pre ++ l) ++ m)
+      by (symmetry; apply keep_all; repeat apply keys_lt_app;
+          [eapply keys_lt_weaken; [exact K2|lia] | apply keys_lt_gen; lia | repeat constructor; cbn; lia]) end.
+  subst L. fin.
+Qed.
+
+(* ------------------------------------------------------------------ the network level *)
+
+Lemma text_of_app : forall c c' s i, get T58 (mtags (recv_of c (wapp c' s i))) = Some (payload i).
+Proof. reflexivity. Qed.
+Lemma text_of_pd : forall c c' s i, get T58 (mtags (recv_of c (wpd c' s i))) = Some (payload i).
+Proof. reflexivity. Qed.
+
+(* Net.v operations are opened; the library calls on a world stay folded for the step lemmas *)
+Ltac nopen :=
+  cbn -[drain run process_message send_msg disconnect recv_of wapp wlogon wrr wpd wgf
+        rows_app rows_pd frames_app frames_pd texts nums Z.add Z.sub Z.of_nat gen payload app_msg logon_msg].
+
+Definition net_up : net :=
+  mkNet (W 17 1 2 2 0 NOW0 true 1 1 [(1, wlogon cfgA 1)] [1])
+        (W 17 2 2 2 0 NOW0 true 1 1 [(1, wlogon cfgB 1)] [1]) [] [] [] [] [] [] 1.
+
+Lemma first_logon : run net0 [AReconnect; ADeliver SB; ADeliver SA] = net_up.
+Proof. vm_compute. reflexivity. Qed.
+
+(* n application sends of A while ACTIVE *)
+Lemma sends_A : forall k ni no lt so si rows ins wbv abv bav gav gbv sav sbv id,
+  keys_lt no rows -> 0 < no -> no + Z.of_nat k <= I64MAX -> so = no - 1 ->
+  run (mkNet (W 17 1 ni no 0 lt true so si rows ins) wbv abv bav gav gbv sav sbv id) (repeat (ASend SA) k)
+  = mkNet (W 17 1 ni (no + Z.of_nat k) 0 lt true (so + Z.of_nat k) si (rows ++ rows_app no id k) ins) wbv
+          (abv ++ frames_app no id k) bav gav gbv (sav ++ texts id k) sbv (id + Z.of_nat k).
+Proof.
+  induction k as [|k IH]; intros * K B1 B2 E.
+  - cbn. rewrite !app_nil_r. replace (no + 0) with no by lia. replace (so + 0) with so by lia.
+    replace (id + 0) with id by lia. reflexivity.
+  - subst so. cbn [repeat run fold_left]. fold (run (step (ASend SA) (mkNet (W 17 1 ni no 0 lt true (no - 1) si rows ins) wbv abv bav gav gbv sav sbv id)) (repeat (ASend SA) k)).
+    unfold step, do_send. nopen.
+    rewrite (send_app_step ni no lt si rows ins id K) by (unfold I64MAX in *; lia).
+    nopen. rewrite app_nil_r.
+    rewrite IH; [ | | lia | unfold I64MAX in *; lia | lia ].
+    + unfold rows_app, frames_app, texts. cbn [gen]. rewrite <- !app_assoc. cbn [app].
+      repeat (first [ reflexivity | lia | f_equal ]).
+    + apply keys_lt_app; [eapply keys_lt_weaken; [exact K|lia]|]. repeat constructor. cbn. lia.
+Qed.
+
+(* k deliveries of consecutive application messages to B while ACTIVE *)
+Lemma delivers_B : forall k s i nob sob si rowsb insb wav rest bav gav gbv sav sbv id,
+  all_lt s insb -> 0 < s -> s + Z.of_nat k < I64MAX -> si = s - 1 ->
+  run (mkNet wav (W 17 2 s nob 0 NOW0 true sob si rowsb insb) (frames_app s i k ++ rest) bav gav gbv sav sbv id)
+      (repeat (ADeliver SB) k)
+  = mkNet wav (W 17 2 (s + Z.of_nat k) nob 0 NOW0 true sob (si + Z.of_nat k) rowsb (insb ++ nums s k))
+          rest bav gav (gbv ++ map Some (texts i k)) sav sbv id.
+Proof.
+  induction k as [|k IH]; intros * K B1 B2 E.
+  - cbn. rewrite !app_nil_r. replace (s + 0) with s by lia. replace (si + 0) with si by lia. reflexivity.
+  - subst si. unfold frames_app. cbn [gen app repeat run fold_left]. fold (frames_app (s + 1) (i + 1) k).
+    match goal with |- fold_left ?f ?l ?x = _ => change (fold_left f l x) with (run x l) end.
+    unfold step, do_deliver. nopen.
+    rewrite (recv_app_active s nob NOW0 sob (s - 1) rowsb insb i K) by (unfold I64MAX in *; lia).
+    nopen. rewrite text_of_app, app_nil_r.
+    rewrite IH; [ | | lia | unfold I64MAX in *; lia | lia ].
+    + unfold nums, texts. cbn [gen map]. rewrite <- !app_assoc. cbn [app].
+      repeat (first [ reflexivity | lia | f_equal ]).
+    + apply Forall_app. split; [eapply all_lt_weaken; [exact K|lia]|]. repeat constructor. lia.
+Qed.
+
+Lemma run_app : forall l1 l2 n, run n (l1 ++ l2) = run (run n l1) l2.
+Proof. intros. unfold run. apply fold_left_app. Qed.
+
+Lemma wires_app : forall a b, wires (a ++ b) = wires a ++ wires b.
+Proof. intros. unfold wires. apply flat_map_app. Qed.
+Lemma apps_app : forall a b, apps (a ++ b) = apps a ++ apps b.
+Proof. intros. unfold apps. apply flat_map_app. Qed.
+Lemma wires_map_wire : forall l, wires (map Wire l) = l.
+Proof. induction l as [|m l IH]; [reflexivity|]. cbn. f_equal. exact IH. Qed.
+Lemma apps_map_wire : forall l, apps (map Wire l) = [].
+Proof. induction l as [|m l IH]; [reflexivity|]. cbn. exact IH. Qed.
+
+Ltac refold :=
+  repeat match goal with
+         | |- context [flat_map ?f ?x] =>
+             first [ progress change (flat_map f x) with (wires x)
+                   | progress change (flat_map f x) with (apps x) ]
+         end.
+
+Lemma drain_S : forall f n,
+  drain (S f) n = if pending SB n then drain f (do_deliver SB n)
+                  else if pending SA n then drain f (do_deliver SA n) else n.
+Proof. reflexivity. Qed.
+
+(* the retransmitted application messages reach B while it waits for the resend *)
+Lemma drain_pd : forall k f s i mr lt nob sob si rowsb insb wav rest bav gav gbv sav sbv id,
+  all_lt s insb -> 0 < s -> s + Z.of_nat (S k) <= mr -> mr <= I64MAX -> si = s - 1 ->
+  drain (S k + f) (mkNet wav (W 12 2 s nob mr lt true sob si rowsb insb) (frames_pd s i (S k) ++ rest) bav gav gbv sav sbv id)
+  = drain f (mkNet wav (W 12 2 (s + Z.of_nat (S k)) nob mr NOW0 true sob (si + Z.of_nat (S k)) rowsb (insb ++ nums s (S k)))
+                   rest bav gav (gbv ++ map Some (texts i (S k))) sav sbv id).
+Proof.
+  induction k as [|k IH]; intros * K B1 B2 B3 E; subst si.
+  - cbn [Nat.add]. rewrite drain_S. unfold frames_pd. cbn [gen app].
+    unfold pending at 1. nopen. unfold do_deliver. nopen.
+    rewrite (recv_pd_awaiting s nob mr lt sob (s - 1) rowsb insb i K) by (unfold I64MAX in *; lia).
+    nopen. rewrite text_of_pd, app_nil_r.
+    unfold nums, texts. cbn [gen map].
+    repeat (first [ reflexivity | lia | f_equal ]).
+  - change (S (S k) + f)%nat with (S (S k + f)). rewrite drain_S. unfold frames_pd. rewrite (gen_S _ _ (S k)). cbn [app].
+    fold (frames_pd (s + 1) (i + 1) (S k)).
+    unfold pending at 1. nopen. unfold do_deliver. nopen.
+    rewrite (recv_pd_awaiting s nob mr lt sob (s - 1) rowsb insb i K) by (unfold I64MAX in *; lia).
+    nopen. rewrite text_of_pd, app_nil_r.
+    change (S (k + f)) with (S k + f)%nat. rewrite IH; [ | | lia | lia | lia | lia ].
+    + unfold nums, texts. cbn [gen map]. rewrite <- !app_assoc. cbn [app].
+      repeat (first [ reflexivity | lia | f_equal ]).
+    + apply Forall_app. split; [eapply all_lt_weaken; [exact K|lia]|]. repeat constructor. lia.
+Qed.
+
+(* ------------------------------------------------------------------ the single-break family *)
+
+(* first Logon exchange; A sends d + k application messages; the first d reach B; the link breaks *)
+Definition sched_before (d k : nat) : list action :=
+  [AReconnect; ADeliver SB; ADeliver SA] ++ repeat (ASend SA) (d + k) ++ repeat (ADeliver SB) d.
+Definition sched_prefix (d k : nat) : list action := sched_before d k ++ [ABreak].
+
+Definition LA1 : Z * msg := (1, wlogon cfgA 1).
+Definition LB1 : Z * msg := (1, wlogon cfgB 1).
+
+Definition net_broken (d k : nat) : net :=
+  let n := Z.of_nat (d + k) in
+  mkNet (W 3 1 2 (2 + n) 0 0 false (1 + n) 1 ([LA1] ++ rows_app 2 1 (d + k)) [1])
+        (W 3 2 (2 + Z.of_nat d) 2 0 0 false 1 (1 + Z.of_nat d) [LB1] ([1] ++ nums 2 d))
+        [] [] [] ([] ++ map Some (texts 1 d)) ([] ++ texts 1 (d + k)) [] (1 + n).
+
+(* the moment before the break: the last k application frames are in flight, nothing else *)
+Definition net_before (d k : nat) : net :=
+  let n := Z.of_nat (d + k) in
+  mkNet (W 17 1 2 (2 + n) 0 NOW0 true (1 + n) 1 ([LA1] ++ rows_app 2 1 (d + k)) [1])
+        (W 17 2 (2 + Z.of_nat d) 2 0 NOW0 true 1 (1 + Z.of_nat d) [LB1] ([1] ++ nums 2 d))
+        (frames_app (2 + Z.of_nat d) (1 + Z.of_nat d) k) [] [] ([] ++ map Some (texts 1 d)) ([] ++ texts 1 (d + k)) [] (1 + n).
+
+Lemma at_before : forall d k, Z.of_nat (d + k) + 3 <= I64MAX -> run net0 (sched_before d k) = net_before d k.
+Proof.
+  intros d k B. unfold sched_before. rewrite run_app, first_logon. unfold net_up.
+  rewrite run_app.
+  rewrite (sends_A (d + k) 2 2 NOW0 1 1 [LA1] [1]); [ | repeat constructor; cbn; lia | lia | lia | lia ].
+  unfold frames_app at 1. rewrite gen_app. fold (frames_app 2 1 d).
+  cbn [app].
+  rewrite (delivers_B d 2 1 2 1 1 [LB1] [1]); [ | repeat constructor; lia | lia | unfold I64MAX in *; lia | lia ].
+  reflexivity.
+Qed.
+
+Lemma at_break : forall d k, Z.of_nat (d + k) + 3 <= I64MAX -> run net0 (sched_prefix d k) = net_broken d k.
+Proof.
+  intros d k B. unfold sched_prefix. rewrite run_app, at_before by assumption. unfold net_before.
+  cbn [run fold_left]. unfold step, do_break. nopen.
+  rewrite !disconnect_active. nopen. rewrite ?app_nil_r. reflexivity.
+Qed.
+
+(* ... the same two objects get a new transport and the initiator sends Logon *)
+Definition net_reconnected (d k : nat) : net :=
+  let n := Z.of_nat (d + k) in
+  mkNet (W 7 1 2 (3 + n) 0 0 true (2 + n) 1 (([LA1] ++ rows_app 2 1 (d + k)) ++ [(2 + n, wlogon cfgA (2 + n))]) [1])
+        (W 6 2 (2 + Z.of_nat d) 2 0 0 true 1 (1 + Z.of_nat d) [LB1] ([1] ++ nums 2 d))
+        [wlogon cfgA (2 + n)] [] [] ([] ++ map Some (texts 1 d)) ([] ++ texts 1 (d + k)) [] (1 + n).
+
+Lemma at_reconnect : forall d k, Z.of_nat (d + k) + 3 <= I64MAX ->
+  do_reconnect (net_broken d k) = net_reconnected d k.
+Proof.
+  intros d k B. unfold net_broken, do_reconnect. nopen.
+  change (set_wr true (set_st ST_NCE (W 3 1 2 (2 + Z.of_nat (d + k)) 0 0 false (1 + Z.of_nat (d + k)) 1 (LA1 :: rows_app 2 1 (d + k)) [1])))
+    with (W 6 1 2 (2 + Z.of_nat (d + k)) 0 0 true (1 + Z.of_nat (d + k)) 1 (LA1 :: rows_app 2 1 (d + k)) [1]).
+  replace (1 + Z.of_nat (d + k)) with (2 + Z.of_nat (d + k) - 1) by lia.
+  rewrite send_logon_step; [ | | unfold I64MAX in *; lia ].
+  - nopen. unfold net_reconnected. cbn [app].
+    change (set_wr true (set_st ST_NCE (W 3 2 (2 + Z.of_nat d) 2 0 0 false 1 (1 + Z.of_nat d) [LB1] (1 :: nums 2 d))))
+      with (W 6 2 (2 + Z.of_nat d) 2 0 0 true 1 (1 + Z.of_nat d) [LB1] (1 :: nums 2 d)).
+    repeat (first [ reflexivity | lia | f_equal ]).
+  - constructor; [unfold LA1; cbn [fst]; lia|]. apply keys_lt_gen. lia.
+Qed.
+
+Lemma drain_quiet : forall f n, pending SB n = false -> pending SA n = false -> drain f n = n.
+Proof. intros f n H1 H2. destruct f; [reflexivity|]. rewrite drain_S, H1, H2. reflexivity. Qed.
+
+(* --- nothing was in flight (k = 0): Logon, Logon reply, both ACTIVE *)
+Definition net_final0 (d : nat) : net :=
+  let n := Z.of_nat d in
+  mkNet (W 17 1 3 (3 + n) 0 NOW0 true (2 + n) 2 (([LA1] ++ rows_app 2 1 d) ++ [(2 + n, wlogon cfgA (2 + n))]) [1; 2])
+        (W 17 2 (3 + n) 3 0 NOW0 true 2 (2 + n) [LB1; (2, wlogon cfgB 2)] (([1] ++ nums 2 d) ++ [2 + n]))
+        [] [] [] (map Some (texts 1 d)) (texts 1 d) [] (1 + n).
+
+Lemma recovery_none : forall d f, Z.of_nat d + 3 <= I64MAX ->
+  drain (S (S f)) (net_reconnected d 0) = net_final0 d.
+Proof.
+  intros d f B. unfold net_reconnected. rewrite Nat.add_0_r.
+  rewrite drain_S. unfold pending at 1. nopen. unfold do_deliver. nopen.
+  rewrite (recv_logon_exact (2 + Z.of_nat d) 2 1 (1 + Z.of_nat d) [LB1] (1 :: nums 2 d));
+    [ | constructor; [lia|apply all_lt_nums; lia] | repeat constructor; cbn [fst LB1]; unfold LB1; cbn [fst]; lia
+      | unfold I64MAX in *; lia | unfold I64MAX in *; lia | lia | lia ].
+  nopen.
+  rewrite drain_S. nopen. unfold do_deliver. nopen.
+  rewrite (recv_logon_reply 2 (3 + Z.of_nat d) (2 + Z.of_nat d) 1 _ [1]);
+    [ | repeat constructor; lia | unfold I64MAX in *; lia | lia ].
+  nopen. rewrite drain_quiet; [ | reflexivity | reflexivity ].
+  unfold net_final0. rewrite !app_nil_r. cbn [app].
+  repeat (first [ reflexivity | lia | f_equal ]).
+Qed.
+
+
+(* --- the last k + 1 messages were in flight: Logon, Logon reply + ResendRequest, replay + gap fill *)
+Definition net_final (d k : nat) : net :=
+  let n := Z.of_nat (d + S k) in
+  let b := 2 + Z.of_nat d in
+  mkNet (W 17 1 4 (3 + n) 0 NOW0 true (2 + n) 3
+           ((LA1 :: rows_app 2 1 d) ++ rows_pd b (1 + Z.of_nat d) (S k) ++ [(2 + n, wgf cfgA (2 + n) (3 + n))]) [1; 2; 3])
+        (W 17 2 (3 + n) 4 0 NOW0 true 3 (2 + n) [LB1; (2, wlogon cfgB 2); (3, wrr cfgB 3 b)]
+           (((1 :: nums 2 d) ++ nums b (S k)) ++ [2 + n]))
+        [] [] [] (map Some (texts 1 d) ++ map Some (texts (1 + Z.of_nat d) (S k))) (texts 1 (d + S k)) [] (1 + n).
+
+Lemma recovery_some : forall d k f, Z.of_nat (d + S k) + 3 <= I64MAX ->
+  drain (3 + (S k + S f)) (net_reconnected d (S k)) = net_final d k.
+Proof.
+  intros d k f B. unfold net_reconnected.
+  set (n := Z.of_nat (d + S k)) in *. set (b := 2 + Z.of_nat d).
+  assert (Hn : n = Z.of_nat d + Z.of_nat (S k)) by (unfold n; lia).
+  cbn [Nat.add].
+  (* B: Logon numbered above the expected number *)
+  rewrite drain_S. unfold pending at 1. nopen. unfold do_deliver. nopen.
+  rewrite (recv_logon_high b 2 1 (1 + Z.of_nat d) [LB1] (1 :: nums 2 d) (2 + n));
+    [ | repeat constructor; unfold LB1; cbn [fst]; lia | unfold b; lia | unfold I64MAX in *; lia | unfold I64MAX; lia | lia ].
+  nopen.
+  (* A: Logon reply *)
+  rewrite drain_S. nopen. unfold do_deliver. nopen.
+  rewrite (recv_logon_reply 2 (3 + n) (2 + n) 1 _ [1]);
+    [ | repeat constructor; lia | unfold I64MAX in *; lia | lia ].
+  nopen.
+  (* A: ResendRequest *)
+  rewrite drain_S. nopen. unfold do_deliver. nopen.
+  replace (rows_app 2 1 (d + S k)) with (rows_app 2 1 d ++ rows_app b (1 + Z.of_nat d) (S k))
+    by (unfold rows_app; rewrite gen_app; reflexivity).
+  rewrite <- app_assoc.
+  change (LA1 :: rows_app 2 1 d ++ rows_app b (1 + Z.of_nat d) (S k) ++ [(2 + n, wlogon cfgA (2 + n))])
+    with ((LA1 :: rows_app 2 1 d) ++ rows_app b (1 + Z.of_nat d) (S k) ++ [(2 + n, wlogon cfgA (2 + n))]).
+  replace (3 + n) with (2 + n + 1) by lia.
+  rewrite (recv_resend_request (2 + 1) NOW0 2 (LA1 :: rows_app 2 1 d) [1; 2] b (1 + Z.of_nat d) (S k) (2 + n));
+    [ | repeat constructor; lia
+      | constructor; [unfold LA1; cbn [fst]; unfold b; lia | apply keys_lt_gen; unfold b; lia]
+      | unfold I64MAX; lia | unfold b; lia | unfold b; lia | unfold I64MAX in *; lia ].
+  nopen. refold. rewrite wires_app, apps_app, wires_map_wire, apps_map_wire. nopen.
+  (* B: the k + 1 retransmissions *)
+  change (S (k + S f)) with (S k + S f)%nat.
+  rewrite (drain_pd k (S f) b (1 + Z.of_nat d) (2 + n) 0 (2 + 2) (2 + 1) (1 + Z.of_nat d));
+    [ | constructor; [unfold b; lia | apply all_lt_nums; unfold b; lia] | unfold b; lia | unfold b; lia
+      | unfold I64MAX in *; lia | unfold b; lia ].
+  (* B: the gap fill over the Logon *)
+  rewrite drain_S. unfold pending at 1. nopen. unfold do_deliver. nopen.
+  replace (b + Z.of_nat (S k)) with (2 + n) by (unfold b; lia).
+  rewrite (recv_gf_awaiting (2 + n) (2 + 2) (2 + 1) (1 + Z.of_nat d + Z.of_nat (S k)));
+    [ | constructor; [lia | apply Forall_app; split; apply all_lt_nums; unfold b; lia]
+      | repeat constructor; unfold LB1; cbn [fst]; lia
+      | unfold I64MAX in *; lia | unfold I64MAX; lia | lia | lia ].
+  nopen. rewrite drain_quiet; [ | reflexivity | reflexivity ].
+  unfold net_final. fold n. fold b. rewrite !app_nil_r. cbn [app].
+  repeat (first [ reflexivity | lia | f_equal ]).
+Qed.
+
+
+
+
+(* ------------------------------------------------------------------ the theorem of the family *)
+
+Lemma ostr_list_eqb_refl : forall l, ostr_list_eqb (map Some l) (map Some l) = true.
+Proof.
+  induction l as [|x l IH]; [reflexivity|]. cbn. rewrite IH.
+  assert (E : str_eqb x x = true) by (apply str_eqb_eq; reflexivity). rewrite E. reflexivity.
+Qed.
+
+Lemma texts_split : forall d k, texts 1 (d + k) = texts 1 d ++ texts (1 + Z.of_nat d) k.
+Proof. intros. unfold texts. rewrite gen_app. reflexivity. Qed.
+
+(* what the property asks of a settled state, spelled out *)
+Definition recovered (s : net) (n : nat) : Prop :=
+  quiescent s = true
+  /\ st (wa s) = ST_ACTIVE /\ st (wb s) = ST_ACTIVE
+  /\ nin (wa s) = nout (wb s) /\ nin (wb s) = nout (wa s)
+  /\ sa s = texts 1 n                    (* A's n sends were all accepted: m1 .. mn *)
+  /\ gb s = map Some (texts 1 n)         (* B's application got exactly those, once, in order *)
+  /\ sb s = [] /\ ga s = []
+  /\ holds s = true.
+
+Lemma settle_broken : forall d k fuel, Z.of_nat (d + k) + 3 <= I64MAX ->
+  settle fuel (net_broken d k) = drain fuel (net_reconnected d k).
+Proof.
+  intros d k fuel B. unfold settle.
+  rewrite (drain_quiet fuel (net_broken d k)) by reflexivity.
+  replace (link_down (net_broken d k)) with true by reflexivity.
+  rewrite at_reconnect by assumption. reflexivity.
+Qed.
+
+Lemma holds_intro : forall s,
+  quiescent s = true -> st (wa s) = ST_ACTIVE -> st (wb s) = ST_ACTIVE ->
+  nin (wa s) = nout (wb s) -> nin (wb s) = nout (wa s) ->
+  gb s = map Some (sa s) -> ga s = map Some (sb s) -> holds s = true.
+Proof.
+  intros s Q A B1 N1 N2 G1 G2. unfold holds, some_all.
+  rewrite Q, A, B1, N1, N2, G1, G2, !Z.eqb_refl, !ostr_list_eqb_refl. reflexivity.
+Qed.
+
+Lemma final0_recovered : forall d, recovered (net_final0 d) (d + 0).
+Proof.
+  intros d. rewrite Nat.add_0_r.
+  assert (H : holds (net_final0 d) = true) by (apply holds_intro; reflexivity).
+  unfold recovered. rewrite H. unfold net_final0. cbn [wa wb ab ba ga gb sa sb nid].
+  repeat split; reflexivity.
+Qed.
+
+Lemma final_recovered : forall d k, recovered (net_final d k) (d + S k).
+Proof.
+  intros d k.
+  assert (G : gb (net_final d k) = map Some (texts 1 (d + S k))).
+  { unfold net_final. cbn [gb]. rewrite <- map_app, <- texts_split. reflexivity. }
+  assert (H : holds (net_final d k) = true).
+  { apply holds_intro; try reflexivity. rewrite G. reflexivity. }
+  unfold recovered. rewrite H, G. unfold net_final. cbn [wa wb ab ba ga gb sa sb nid].
+  repeat split; reflexivity.
+Qed.
+
+Theorem single_break : forall d k fuel,
+  Z.of_nat (d + k) + 3 <= I64MAX -> (k + 4 <= fuel)%nat ->
+  recovered (settle fuel (run net0 (sched_prefix d k))) (d + k).
+Proof.
+  intros d k fuel B F. rewrite at_break, settle_broken by assumption.
+  destruct k as [|k].
+  - destruct fuel as [|[|f]]; [lia|lia|]. rewrite recovery_none by (rewrite Nat.add_0_r in B; exact B).
+    apply final0_recovered.
+  - replace fuel with (3 + (S k + S (fuel - (S k + 4))))%nat by lia.
+    rewrite recovery_some by assumption. apply final_recovered.
+Qed.
+
+(* ------------------------------------------------------------------ the known-finding class, and the witnesses *)
+
+(* a reply to a ResendRequest: a retransmission (PossDupFlag = Y) or a SequenceReset-GapFill *)
+Definition is_reply (m : msg) : bool :=
+  match get T43 (mtags m) with
+  | Some v => str_eqb v S_Y
+  | None => match mkind m, get T123 (mtags m) with
+            | KSeqReset, Some v => str_eqb v S_Y
+            | _, _ => false
+            end
+  end.
+
+(* class predicate C07-break-loses-resend-reply, on the state in which the link breaks *)
+Definition reply_in_flight (n : net) : bool := existsb is_reply (ab n ++ ba n).
+
+(* the schedules of the proved family are outside the class *)
+Lemma family_outside_class : forall d k, reply_in_flight (net_before d k) = false.
+Proof.
+  intros d k. unfold reply_in_flight, net_before. cbn [ab ba]. rewrite app_nil_r.
+  apply not_true_is_false. intros H. apply existsb_exists in H. destruct H as [m [Hin Hm]].
+  assert (F : Forall (fun m => is_reply m = false) (frames_app (2 + Z.of_nat d) (1 + Z.of_nat d) k)).
+  { apply gen_Forall. intros j Hj. reflexivity. }
+  rewrite Forall_forall in F. rewrite (F m Hin) in Hm. discriminate.
+Qed.
+
+Theorem single_break_nk : forall n k fuel,
+  (k <= n)%nat -> Z.of_nat n + 3 <= I64MAX -> (k + 4 <= fuel)%nat ->
+  reply_in_flight (run net0 (sched_before (n - k) k)) = false
+  /\ recovered (settle fuel (run net0 (sched_before (n - k) k ++ [ABreak]))) n.
+Proof.
+  intros n k fuel K B F.
+  assert (E : (n - k + k)%nat = n) by lia.
+  split.
+  - rewrite at_before by (rewrite E; exact B). apply family_outside_class.
+  - pose proof (single_break (n - k) k fuel) as H. rewrite E in H. apply H; assumption.
+Qed.
+
+(* D13: the replay of the lost message is lost too; the second ResendRequest aborts on the journaled copy *)
 Definition sched_double_break : list action :=
   [AReconnect; ADeliver SB; ADeliver SA; ASend SA; ABreak;
    AReconnect; ADeliver SB; ADeliver SA; ADeliver SA; ABreak].
 
 Lemma double_break_refuted :
+  let before := run net0 (firstn 9 sched_double_break) in
   let n := settle 80 (run net0 sched_double_break) in
-  sa n = [payload 1] /\ gb n = [] /\ quiescent n = true
+  reply_in_flight before = true
+  /\ sa n = [payload 1] /\ gb n = [] /\ quiescent n = true /\ holds n = false
   /\ st (wa n) = ST_HANDLING /\ st (wb n) = ST_AWAITING /\ nout (wa n) = 2 /\ nin (wb n) = 2.
 Proof. vm_compute. repeat split. Qed.
+
+(* a gap fill is lost, the journaled gap fill later covers the message behind it: both ends ACTIVE with
+   matching numbers, the accepted message is never delivered *)
+Definition sched_silent_loss : list action :=
+  [AReconnect; ABreak; AReconnect; ADeliver SB; ADeliver SA; ADeliver SA; ASend SA; ABreak].
+
+Lemma silent_loss_refuted :
+  let before := run net0 (firstn 7 sched_silent_loss) in
+  let n := settle 80 (run net0 sched_silent_loss) in
+  reply_in_flight before = true
+  /\ sa n = [payload 1] /\ gb n = [] /\ quiescent n = true /\ holds n = false
+  /\ st (wa n) = ST_ACTIVE /\ st (wb n) = ST_ACTIVE
+  /\ nin (wa n) = nout (wb n) /\ nin (wb n) = nout (wa n).
+Proof. vm_compute. repeat split. Qed.
+
+(* non-vacuity / cross-check by computation: n = 3, the last k = 2 in flight *)
+Lemma family_instance :
+  let n := settle 10 (run net0 (sched_before 1 2 ++ [ABreak])) in
+  holds n = true /\ gb n = [Some (payload 1); Some (payload 2); Some (payload 3)]
+  /\ nin (wb n) = 6 /\ nout (wa n) = 6 /\ nin (wa n) = 4 /\ nout (wb n) = 4.
+Proof. vm_compute. repeat split. Qed.
+
+(* computed instances in the other direction and in both directions at once (exploration, not the theorem) *)
+Lemma instance_B_to_A :
+  holds (settle 20 (run net0 [AReconnect; ADeliver SB; ADeliver SA; ASend SB; ASend SB; ADeliver SA; ABreak])) = true.
+Proof. vm_compute. reflexivity. Qed.
+Lemma instance_both_directions :
+  holds (settle 20 (run net0 [AReconnect; ADeliver SB; ADeliver SA; ASend SA; ASend SB; ASend SA; ABreak])) = true.
+Proof. vm_compute. reflexivity. Qed.
+
+(* ------------------------------------------------------------------ constants of Net.v = the code's (regenerated every run) *)
+
+Fixpoint assoc_num (k : str) (l : list (str * N)) : option N :=
+  match l with [] => None | (a, b) :: r => if str_eqb a k then Some b else assoc_num k r end.
+Fixpoint assoc_str (k : str) (l : list (str * str)) : option str :=
+  match l with [] => None | (a, b) :: r => if str_eqb a k then Some b else assoc_str k r end.
+Definition state_is (name : str) (z : Z) : bool :=
+  match assoc_num name conn_state with Some n => Z.of_N n =? z | None => false end.
+Definition role_is (name : str) (z : Z) : bool :=
+  match assoc_num name conn_role with Some n => Z.of_N n =? z | None => false end.
+
+Definition net_constants_ok : bool :=
+  (* "DISCONNECTED_NOCONN_TODAY", "DISCONNECTED_BROKEN_CONN", "NETWORK_CONN_ESTABLISHED", "LOGON_INITIAL_SENT",
+     "RESENDREQ_HANDLING", "RESENDREQ_AWAITING", "ACTIVE", "INITIATOR", "ACCEPTOR", NEWORDERSINGLE = "D" *)
+  state_is [68;73;83;67;79;78;78;69;67;84;69;68;95;78;79;67;79;78;78;95;84;79;68;65;89]%N ST_NOCONN
+  && state_is [68;73;83;67;79;78;78;69;67;84;69;68;95;66;82;79;75;69;78;95;67;79;78;78]%N ST_DISC_BROKEN
+  && state_is [78;69;84;87;79;82;75;95;67;79;78;78;95;69;83;84;65;66;76;73;83;72;69;68]%N ST_NCE
+  && state_is [76;79;71;79;78;95;73;78;73;84;73;65;76;95;83;69;78;84]%N ST_LOGON_SENT
+  && state_is [82;69;83;69;78;68;82;69;81;95;72;65;78;68;76;73;78;71]%N ST_HANDLING
+  && state_is [82;69;83;69;78;68;82;69;81;95;65;87;65;73;84;73;78;71]%N ST_AWAITING
+  && state_is [65;67;84;73;86;69]%N ST_ACTIVE
+  && role_is [73;78;73;84;73;65;84;79;82]%N ROLE_INITIATOR
+  && role_is [65;67;67;69;80;84;79;82]%N ROLE_ACCEPTOR
+  && match assoc_str [78;69;87;79;82;68;69;82;83;73;78;71;76;69]%N fmsg with Some v => str_eqb v MT_D | None => false end
+  && (sys_maxsize =? I64MAX).
+
+Lemma net_constants_tied : net_constants_ok = true.
+Proof. vm_compute. reflexivity. Qed.
